@@ -49,7 +49,8 @@ type world struct {
 
 type faultState struct {
 	Fault
-	left int
+	left    int
+	skipped int
 }
 
 type wnode struct {
@@ -156,6 +157,10 @@ func (w *world) decide(seam string, node int, ifn, key string) (*Fault, int) {
 			continue
 		}
 		if now < f.From {
+			continue
+		}
+		if f.skipped < f.Skip {
+			f.skipped++
 			continue
 		}
 		if f.left > 0 {
